@@ -34,6 +34,9 @@ type ExecCall struct {
 	// Spelling: this call goes through a Config whose directory is spelled differently (trailing | dot | dotdot | double):
 	// the same file, hence the same sequence of ordinals
 	Spelling string `json:"dir_spelling,omitempty"`
+	// NoValuesBefore: right before this call the test calls MatchSnapshot(t) with NO values on the same Config (a table case
+	// whose value list is empty): a warning is logged, nothing else happens - in particular no ordinal is taken
+	NoValuesBefore bool `json:"matchsnapshot_without_values_before,omitempty"`
 }
 
 type Exec struct {
@@ -237,6 +240,9 @@ func genHistory(t *rapid.T, col *collector, ho histOpts) histCase {
 					ec.Call, ec.Fail = genFailingCall(t, prog[k])
 				} else {
 					ec.Call = genSlotCallPooled(t, prog[k], o, col)
+				}
+				if ho.failing && rapid.IntRange(0, 11).Draw(t, "novalues") == 0 {
+					ec.NoValuesBefore = true
 				}
 				if ho.crlf && rapid.IntRange(0, 7).Draw(t, "spelling") == 0 {
 					ec.Spelling = rapid.SampledFrom([]string{"trailing", "dot", "dotdot", "double"}).Draw(t, "spellingkind")
@@ -489,6 +495,12 @@ func runHistory(c histCase, hooks histHooks) error {
 				}
 				continue
 			}
+			if ec.NoValuesBefore {
+				r0 := Call{API: "snap"}.invoke(cfgFor(ci, ec.UpdOpt, ec.Spelling), fts[st.Exec])
+				if len(r0.Errors) != 0 || len(r0.Events) != 0 {
+					return fmt.Errorf("process %d %s: MatchSnapshot without values reported errors %q / events %v", pi, name, vhClipAll(r0.Errors), r0.Events)
+				}
+			}
 			counts[st.Exec][ci]++
 			k := counts[st.Exec][ci]
 			id := entryID(name, k)
@@ -677,6 +689,9 @@ func classifyHistory(c histCase) ([]string, bool) {
 				}
 				if ec.UpdOpt != nil {
 					cls = append(cls, "per_call_update_option")
+				}
+				if ec.NoValuesBefore {
+					cls = append(cls, "matchsnapshot_without_values_before_a_call")
 				}
 				for _, f := range textFeatures(callText(ec.Call)) {
 					if f == "header_like_line" {
